@@ -17,6 +17,7 @@ import traceback
 VERIF = os.path.dirname(os.path.dirname(os.path.abspath(__file__)))
 REPO = os.environ.get("HEXITAL_REPO", "/repo")
 VENV_PY = os.environ.get("HEXITAL_PY", "/venv/bin/python")
+OUT = os.environ.get("VERIF_OUT", VERIF)
 
 EXIT_OK, EXIT_VIOLATION, EXIT_HARNESS = 0, 1, 2
 
@@ -95,7 +96,7 @@ def run_ob(args):
         cfg["seed"] = seed
         eng = core.Engine(cfg)
         col = Collector(obd)
-        rdir = os.path.join(VERIF, "replays", prop)
+        rdir = os.path.join(OUT, "replays", prop)
         os.makedirs(rdir, exist_ok=True)
         tz_of = getattr(mod, "scenario_tz", None)
 
@@ -295,7 +296,7 @@ def main(prop, tier="quick", jobs=None, seed=0, only=None, verbose=False):
     jobs = jobs or int(os.environ.get("VERIF_JOBS", "0")) or min(16, os.cpu_count() or 4)
     tasks = [(prop, obs[i].asdict(), tier, seed, i in sc_idx) for i in order]
     # clean old replays for this property (evidence must come from this run)
-    rdir = os.path.join(VERIF, "replays", prop)
+    rdir = os.path.join(OUT, "replays", prop)
     if os.path.isdir(rdir) and not only:
         for f in os.listdir(rdir):
             if f.endswith(".json"):
@@ -357,7 +358,8 @@ def report(prop, tier, seed, mod, results, wall, partial=False):
             traces_validated_against_impl=sv_ok + len(violations) + len(knowns),
             samples=samples or [dict(note="no obligation completed")],
             obligations=asserts, discharged=discharged, discharged_structurally_float_exact=structural,
-            inconclusive=inconc, harness_obligations=len(results), obligations_over_budget=budget,
+            inconclusive=inconc, inconclusive_where=[dict(obligation=r["name"], labels=r["inconclusive"]) for r in results if r.get("inconclusive")][:20],
+            harness_obligations=len(results), obligations_over_budget=budget,
             paths_aborted_infeasible=agg("aborted"), solver_queries=agg("queries"), solver_queries_fresh_tier=agg("q_fresh"),
             solver_s=round(agg("solver_s"), 2), unknown_at_branch_overapproximated=agg("unknown_branch"),
             selfvalidation_runs=len(svs), selfvalidation_ok=sv_ok,
@@ -376,8 +378,8 @@ def report(prop, tier, seed, mod, results, wall, partial=False):
     if ev["coverage"]["transitions"] < 1:
         ev["coverage"]["transitions"] = 1
     if not partial:
-        os.makedirs(os.path.join(VERIF, "evidence"), exist_ok=True)
-        with open(os.path.join(VERIF, "evidence", f"{prop}.json"), "w") as f:
+        os.makedirs(os.path.join(OUT, "evidence"), exist_ok=True)
+        with open(os.path.join(OUT, "evidence", f"{prop}.json"), "w") as f:
             json.dump(ev, f, indent=1, default=str)
     print(f"[{prop}/{tier}] harness-obligations={len(results)} paths={paths} assertions={asserts} discharged={discharged} "
           f"(+{structural} structural) inconclusive={inconc} over-budget={len(budget)} selfcheck={sv_ok}/{len(svs)} "
